@@ -156,9 +156,41 @@ def subst(t, name, val):
     return t
 
 
+# one value written in two styles under one anchor name: never a conflict
+STYLE_PAIRS = [
+    ("a: &A x\nb: *A\n", 'd: &A "x"\ne: *A\n'),
+    ("a: &A 'x'\nb: *A\n", "d: &A x\ne: *A\n"),
+    ('a: &A "x"\nb: [*A]\n', "d: &A 'x'\ne: *A\n"),
+    ("a: &A |-\n  x\nb: *A\n", "d: &A x\ne: *A\n"),
+    ("a: &A 1000\nb: *A\n", "d: &A 1_000\ne: *A\n"),
+    ("a: &A 16\nb: *A\n", "d: &A 0x10\ne: *A\n"),
+    ("a: &A 2.5\nb: *A\n", "d: &A 2.50\ne: *A\n"),
+    ("a: &A true\nb: *A\n", "d: &A True\ne: *A\n"),
+    # ... and the same spellings where the values do differ
+    ("a: &A x\nb: *A\n", 'd: &A "y"\ne: *A\n'),
+    ("a: &A 1000\nb: *A\n", "d: &A 1_001\ne: *A\n"),
+]
+
+
+def style_family(st):
+    for ltext, rtext in STYLE_PAIRS:
+        for lt, rt in ((ltext, rtext), (rtext.replace("d:", "a:").replace(
+                "e:", "b:"), ltext.replace("a:", "d:").replace("b:", "e:"))):
+            try:
+                ldoc, rdoc = corpus.load(lt), corpus.load(rt)
+            except corpus.LoadError:
+                continue
+            for apol in APOL:
+                for mpol in MPOL:
+                    check(st, ldoc, rdoc, lt, rt, apol, mpol,
+                          ("style", "style", "A", "A"))
+
+
 def run_shard(shard):
     (li,) = shard
     st = core.Stats(ID)
+    if li == 0:
+        style_family(st)
     ltag, lname, lval, lspec = LEFTS[li]
     ltext = corpus.render(lspec)
     ldoc = corpus.load(ltext)
@@ -251,6 +283,11 @@ def check(st, ldoc, rdoc, ltext, rtext, apol, mpol, tags):
         return
     # one value per anchor name in the result
     ga = anchors_in(got)
+    if not conflicts and not set(ga) <= set(la) | set(ra):
+        st.fail("%s|renamed-without-conflict" % cls, case,
+                "anchor names %r" % sorted(set(la) | set(ra)),
+                repr(sorted(ga)))
+        return
     for n, vals in ga.items():
         if len(vals) > 1:
             st.fail("%s|anchor-two-values" % cls, case,
